@@ -468,7 +468,7 @@ func init() {
 		ID:          "C10",
 		Level:       "model_checking",
 		Technique:   "exhaustive enumeration of (limit x declared length x message type x position in the exchange) on a real server with a zero-generating transport and a live-heap monitor, plus the same boundary enumeration directly on buffer.Reader; within-limit cases are judged differentially against a large limit, oversized cases against the protocol rule",
-		Rule:        "limits 12..40, 4095, 4096, 4097, 65536, 0 and -1 (default 16 MiB); body sizes {0,1,L-1,L,L+1,L+2,2L,2L+1,3L+7}, raw declared lengths 0..3, and 2^16, 2^31-5, 2^31-4, 2^32-5 for L >= 4096; all 13 client types + an unknown type; positions startup / password / first message / between queries / after Parse / inside COPY / inside a TLS-upgraded session (limits 1 KiB, 8 KiB, 20000; Query and Bind bodies of L-1, L, L+1, 2L, 16383..16385, 20000, 70000 bytes; differential against the plaintext session); every message is followed by a probe query",
+		Rule:        "limits 12..40, 4095, 4096, 4097, 65536, 0 and -1 (default 16 MiB); body sizes {0,1,L-1,L,L+1,L+2,2L,2L+1,3L+7}, raw declared lengths 0..3, and 2^16, 2^31-5, 2^31-4, 2^32-5 for L >= 4096; all 13 client types + an unknown type; several oversized messages of different sizes in one session; values spanning several within-limit CopyData messages; positions startup / password / first message / between queries / after Parse / inside COPY / inside a TLS-upgraded session (limits 1 KiB, 8 KiB, 20000; Query and Bind bodies of L-1, L, L+1, 2L, 16383..16385, 20000, 70000 bytes; differential against the plaintext session); every message is followed by a probe query",
 		Assumptions: []string{"not asserted: a ReadyForQuery after the 54000 error; continue-or-close after a sub-minimum length", "live heap is sampled (forced GC) at the first 8 and every 2048th transport read while the message is in flight"},
 		Enumerate:   c10Enumerate,
 		Bounds: func(tier string) map[string]any {
@@ -476,6 +476,49 @@ func init() {
 		},
 		RequiredOutcomes: []string{"within-limit", "oversized-session", "oversized-handshake", "sub-minimum", "direct-reader", "tls-session"},
 	})
+}
+
+// c10RunSeveral: oversized Query messages whose bodies are runs of framed "smuggled" queries, then a probe.
+func c10RunSeveral(limit int, bodies []int) explore.Result {
+	var res explore.Result
+	res.Outcome = "oversized-session"
+	res.Key = fmt.Sprint("several", limit, bodies)
+	frame := pgproto.Query(c03Smuggled)
+	stream := pgproto.Startup("user", "u")
+	n := 0
+	for _, b := range bodies {
+		if b == 0 {
+			continue
+		}
+		n++
+		payload := bytes.Repeat(frame, b/len(frame)+1)[:b]
+		stream = append(stream, pgproto.Msg('Q', payload)...)
+	}
+	stream = append(stream, pgproto.Query(progRows)...)
+	o := c04RunLimit(false, c04Feed{Stream: stream}, false, limit)
+	what := fmt.Sprintf("limit %d, oversized Query messages with bodies of %v bytes (each a run of framed queries), then a probe query", limit, bodies)
+	if o.engine != "" {
+		res.Engine = o.engine
+		return res
+	}
+	if o.status != memnet.Closed {
+		res.Fail("not-closed-after-eof", fmt.Sprintf("%s: connection is %s", what, o.status))
+	}
+	for _, e := range o.events {
+		if strings.Contains(e, c03Smuggled) {
+			res.Fail("oversized-not-skipped", fmt.Sprintf("%s: bytes of an oversized body were executed as messages: %v", what, o.events))
+			return res
+		}
+	}
+	k := harness.Kinds(o.out)
+	if i := strings.IndexByte(k, 'Z'); i >= 0 {
+		k = k[i+1:] // after the start-up
+	}
+	if strings.Count(k, "E") != n || !strings.HasSuffix(k, "TDCZ") {
+		res.Fail("oversized-reply", fmt.Sprintf("%s: the session was answered %q: expected one 54000 error per oversized message (%d) and the probe served normally", what, k, n))
+	}
+	res.Trans = []string{fmt.Sprintf("session|%d oversized|session", n)}
+	return res
 }
 
 func c10Enumerate(tier string, emit explore.Emit) {
@@ -495,6 +538,33 @@ func c10Enumerate(tier string, emit explore.Emit) {
 			r.Outcome = "tls-session"
 			return r
 		}})
+	}
+	// every CopyData message is within the limit although the value they carry together is not: all are processed
+	for _, cfg := range c14BigValueConfigs() {
+		cfg := cfg
+		emit(explore.Case{Family: "copy-value-spanning-messages", Size: 2,
+			Desc: func() any {
+				return map[string]any{"message_limit": cfg.limit, "text_value_bytes": cfg.size, "copydata_chunk": cfg.chunk}
+			},
+			Run: func() explore.Result {
+				r := c14BigValue(cfg)
+				r.Outcome = "within-limit"
+				return r
+			}})
+	}
+	// several oversized messages of different sizes in one session: each is skipped in full by ITS declared length
+	for _, l := range []int{32, 1024} {
+		sizes := []int{l + 1, l + 9, l + 22, 2*l + 1, 3*l + 7}
+		for _, d1 := range sizes {
+			for _, d2 := range sizes {
+				for _, d3 := range []int{0, l + 14} {
+					l, d1, d2, d3 := l, d1, d2, d3
+					emit(explore.Case{Family: "several-oversized", Size: 3,
+						Desc: func() any { return map[string]any{"limit": l, "oversized_body_sizes": []int{d1, d2, d3}} },
+						Run:  func() explore.Result { return c10RunSeveral(l, []int{d1, d2, d3}) }})
+				}
+			}
+		}
 	}
 	add := func(c c10Case) {
 		emit(explore.Case{Family: c.Pos, Size: 1, Desc: func() any { return c.String() }, Run: func() explore.Result { return c10Run(c) }})
